@@ -100,6 +100,13 @@ def IdxOk {α : Type} (s : St α) : Prop :=
   ∀ e ∈ s.idx, e.2 = (s.flows.filter (fun f => f.flowId == e.1)).map (·.uid)
 
 
+/-- every entry of a `child_flow_uids` list names an existing instance whose `parent_uid` points back, no uid is
+    listed twice, and no instance has the empty uid (Python: `if flow_state.parent_uid and …`) -/
+def LinksOk {α : Type} (s : St α) : Prop :=
+  (∀ f ∈ s.flows, f.uid ≠ "") ∧
+  ∀ p ∈ s.flows, p.children.Nodup ∧ ∀ c ∈ p.children, ∃ k ∈ s.flows, k.uid = c ∧ k.parent = some p.uid
+
+
 def ageMicros : Int := (NemoVerif.Generated.C11.cleanUpAgeSeconds : Int) * 1000000
 
 end NemoVerif.CleanUp
